@@ -40,6 +40,12 @@ class FitModel(WitnessModel):
             return (self.popt_factory(interp, self, kwargs.get('p0')), Opaque('covariance'))
         if path.endswith('chi2') and len(args) == 1:
             return _Chi2(self, interp, args[0])
+        if path.endswith(('chi2.cdf', 'chi2.sf')) and len(args) + len(kwargs) == 2:
+            # the distribution's functions called directly: cdf(x, df) / sf(x, df) = 1 - cdf(x, df)
+            x = args[0] if args else kwargs.get('x')
+            dof = args[1] if len(args) > 1 else kwargs.get('df')
+            c = _Chi2(self, interp, dof).cdf(x)
+            return c if path.endswith('cdf') else interp.binop('sub', lambda a, b: a - b, 1, c, node)
         return super().call_ext(interp, path, args, kwargs, node)
 
 
@@ -53,6 +59,9 @@ class _Chi2:
         r.kind = 'pyfloat'
         r.members['dims'] = []
         return r
+
+    def sf(self, x):
+        return self.interp.binop('sub', lambda a, b: a - b, 1, self.cdf(x), None)
 
 
 class ModelStub:
@@ -130,6 +139,14 @@ class World:
             return 'return', self.it.call_function(fi, list(args), dict(kwargs or {}), bound=bound)
         except RaiseSignal as r:
             return 'raise', r.exc_type
+
+
+def stub_existing(w, repo, name, fn):
+    """Replace a private helper by a stub where the helper exists (it is not part of the rule)."""
+    try:
+        w.it.stubs[repo.func(MOD, name).fq] = fn
+    except AnalysisError:
+        pass
 
 
 def assessment_name(v):
@@ -268,7 +285,11 @@ def run(tier: str) -> Run:
 
     # ---- R3: one result per window; first success wins ---------------------------------------------------------------
     r3 = run.rule('R3', 'one result per estimate, in order, fitted on the window data; first success in product order, else first candidate', 18)
-    pfi = repo.func(MOD, '_fit_peak')
+    ffi = repo.func(MOD, 'fit_peaks')
+    try:
+        pfi = repo.func(MOD, '_fit_peak')
+    except AnalysisError:
+        pfi = None
     for pattern in itertools.product((False, True), repeat=4):
         w = World(repo)
         peaks = (ModelStub(w, 'p0', ['peak_loc']), ModelStub(w, 'p1', ['peak_loc']))
@@ -285,10 +306,20 @@ def run(tier: str) -> Run:
         w.it.stubs[repo.func(MOD, '_fit_peak_single_model').fq] = single
         data = w.data(6)
         window = w.model.array(w.it, [w.scalar('wlo', ANG, 0), w.scalar('whi', ANG, 100)], 'range')
-        kind, res = w.call(pfi, [data, window, bkgs, peaks, fit_params(w), None])
+        if pfi is not None:
+            kind, res = w.call(pfi, [data, window, bkgs, peaks, fit_params(w), None])
+        else:
+            # no per-window helper of today's shape: the same question through fit_peaks with one explicit window
+            stub_existing(w, repo, '_assert_data_is_supported', lambda *a: None)
+            stub_existing(w, repo, '_parse_model_spec', lambda it, args, kwargs, bound: tuple(args[0]))
+            est = w.model.array(w.it, [w.scalar('c0', ANG, 50)], 'x')
+            kind, res = w.call(ffi, [data], {'peak_estimates': est, 'windows': w.model.matrix(w.it, [window], 'x'), 'background': bkgs, 'peak': peaks,
+                                             'fit_parameters': fit_params(w)})
+            if kind == 'return':
+                res = res[0] if isinstance(res, list) and len(res) == 1 else None
         want = pattern.index(True) if any(pattern) else 0
         got = res.attrs.get('tag') if kind == 'return' and isinstance(res, SObj) else None
-        r3.check(got == want, f'success pattern {pattern}', loc(pfi), {'returned_candidate': got, 'documented': want, 'tried': made, 'outcome': kind}, key='selection')
+        r3.check(got == want, f'success pattern {pattern}', loc(pfi or ffi), {'returned_candidate': got, 'documented': want, 'tried': made, 'outcome': kind}, key='selection')
     ffi = repo.func(MOD, 'fit_peaks')
     for order_label, los, his in (('increasing windows', (1, 4), (3, 7)), ('overlapping and empty windows', (2, 5, 9), (6, 5, 20))):
         w = World(repo)
@@ -298,13 +329,20 @@ def run(tier: str) -> Run:
         est = w.model.array(w.it, [w.scalar(f'c{i}', ANG, (lo + hi) / 2) for i, (lo, hi) in enumerate(zip(los, his, strict=True))], 'x')
         seen = []
 
-        def one(it, args, kwargs, bound, seen=seen):
-            seen.append((args[0], args[1]))
+        def one(it, args, kwargs, bound, seen=seen, w=w):
+            seen.append((args[0], args[1] if len(args) > 1 else kwargs.get('window')))
+            if pfi is None:
+                return SObj(repo.cls(MOD, 'FitResult'), {'assessment': w.assess['success'], 'tag': len(seen) - 1})
             return ('result', len(seen) - 1)
-        w.it.stubs[repo.func(MOD, '_fit_peak').fq] = one
-        w.it.stubs[repo.func(MOD, '_assert_data_is_supported').fq] = lambda *a: None
-        w.it.stubs[repo.func(MOD, '_parse_model_spec').fq] = lambda it, args, kwargs, bound: ('models', kwargs.get('prefix'))
+        if pfi is not None:
+            w.it.stubs[pfi.fq] = one
+        else:
+            w.it.stubs[repo.func(MOD, '_fit_peak_single_model').fq] = one  # one candidate per window: its first result is the window's result
+        stub_existing(w, repo, '_assert_data_is_supported', lambda *a: None)
+        stub_existing(w, repo, '_parse_model_spec', lambda it, args, kwargs, bound: ('models', kwargs.get('prefix')))
         kind, res = w.call(ffi, [data], {'peak_estimates': est, 'windows': windows, 'background': 'linear', 'peak': 'gaussian'})
+        if pfi is None and kind == 'return' and isinstance(res, list):
+            res = [('result', r_.attrs.get('tag')) if isinstance(r_, SObj) else r_ for r_ in res]
         ok = kind == 'return' and res == [('result', i) for i in range(len(los))] and len(seen) == len(los)
         detail = {'outcome': kind, 'results': repr(res)[:120]}
         if ok:
